@@ -746,16 +746,20 @@ package dnsmsg
 //@   loop 1:
 //@     modifies b[12:len(b)], obj(compressionMap), msgHdr.Truncated
 //@     invariant 12 <= off && off <= len(b) && (size >= 12 ==> off <= size)
+//@     invariant compressionMap == nil || ptrsFit(compressionMap)
 //@     invariant 0 <= nQ && nQ <= rangeindex + 1 && questions == nQ && (msgHdr.Truncated == (m.Truncated || nQ < rangeindex + 1))
 //@   loop 2:
 //@     modifies b[12:len(b)], obj(compressionMap), msgHdr.Truncated
 //@     invariant 12 <= off && off <= len(b) && (size >= 12 ==> off <= size)
+//@     invariant compressionMap == nil || ptrsFit(compressionMap)
 //@     invariant 0 <= nAn && nAn <= rangeindex_2 + 1 && answers == nAn && (msgHdr.Truncated == (m.Truncated || nQ < len(m.Questions) || nAn < rangeindex_2 + 1))
 //@   loop 3:
 //@     modifies b[12:len(b)], obj(compressionMap), msgHdr.Truncated
 //@     invariant 12 <= off && off <= len(b) && (size >= 12 ==> off <= size)
+//@     invariant compressionMap == nil || ptrsFit(compressionMap)
 //@     invariant 0 <= nNs && nNs <= rangeindex_3 + 1 && authorities == nNs && (msgHdr.Truncated == (m.Truncated || nQ < len(m.Questions) || nAn < len(m.Answers) || nNs < rangeindex_3 + 1))
 //@   loop 4:
 //@     modifies b[12:len(b)], obj(compressionMap), msgHdr.Truncated
 //@     invariant 12 <= off && off <= len(b) && (size >= 12 ==> off <= size)
+//@     invariant compressionMap == nil || ptrsFit(compressionMap)
 //@     invariant 0 <= nAr && nAr <= rangeindex_4 + 1 && additionals == nAr && (msgHdr.Truncated == (m.Truncated || nQ < len(m.Questions) || nAn < len(m.Answers) || nNs < len(m.Authorities) || nAr < rangeindex_4 + 1))
